@@ -19,7 +19,8 @@ func init() {
 			"R2 fresh per-change state — data.New() is called inside Change.Match and engine.NewChangelog() inside the change loop of both runners; R3 no ambient nondeterminism — reachable module code calls no clock, randomness or environment function and starts no goroutine, and every range over a map either feeds a sort before its result is used or only fills another map (one listed exception: the order of diagnostics of a rejected patch); " +
 			"R4 fixed processing order — findFiles keys its de-duplication map by the absolute path and sorts by it with a strict less; R5 cross-file state of mainCmd.Run — no local variable or pointer-typed value created outside the per-file loop is written or handed to a mutating call inside it, other than the position table (token.FileSet, append-only and locked), the error accumulators, the logger and the runner. " +
 			"R1 also covers append: a slice held by the compiled program (or a re-slice of it such as m.results[:0]) is never appended to while matching/replacing — with spare capacity append writes into the shared backing array. " +
-			"NOT decided: data races inside third-party code, position-base effects of the shared FileSet on printing, concurrent Apply calls beyond R1 (absence of writes to shared state).",
+			"NOT decided: data races inside third-party code, position-base effects of the shared FileSet on printing, concurrent Apply calls beyond R1 (absence of writes to shared state)." +
+			" R5 also: runner fields written while files are processed are never read there.",
 		Trusted:     append([]string{"token.FileSet is internally locked and append-only", "the go-intervals coroutine is deterministic"}, commonTrusted...),
 		Assumptions: commonAssumptions,
 	})
